@@ -31,7 +31,7 @@ def random_script(rng, i):
             ops.append(["stale_disconnect", rng.choice(sorted(conn))])
         if persistent and x < 0.10:
             # dial progress / reconnection timer of persistent peers
-            ops.append(rng.choice([["attempted", rng.choice(persistent)], ["wake", rng.choice([4000, 70000])]]))
+            ops.append(rng.choice([["attempted", rng.choice(persistent)], ["wake", rng.choice([4000, 70000])], ["dialfail", rng.choice(persistent)]]))
         elif x < 0.15 or not conn:
             cand = [p for p in range(1, npeers + 1) if p not in conn]
             if cand:
@@ -78,19 +78,79 @@ def scripted():
     ]
 
 
+def execute(ctx, scripts, tag=""):
+    """Runs the scripts on the real Service (engine c16_fetchsched, 12 processes) and validates the log against
+    the observer TraceFetchSched. Returns (event lines, TLC result of the observer)."""
+    nshards = 12
+    procs = []
+    for i in range(nshards):
+        sp = os.path.join(ctx.work, f"{tag}scripts{i}.ndjson")
+        with open(sp, "w") as f:
+            for s in scripts[i::nshards]:
+                f.write(json.dumps(s, separators=(",", ":")) + "\n")
+        ep = os.path.join(ctx.work, f"{tag}events{i}.ndjson")
+        procs.append((ep, subprocess.Popen([ctx.bin(ENGINE), "--scripts", sp, "--out", ep], cwd=ctx.work,
+                                           stdout=subprocess.PIPE, stderr=subprocess.PIPE, text=True)))
+    for ep, pr in procs:
+        try:
+            _, err = pr.communicate(timeout=3000)
+        except subprocess.TimeoutExpired:
+            pr.kill()
+            raise vlib.ToolError("engine timed out")
+        if pr.returncode != 0:
+            raise vlib.ToolError(f"engine failed rc={pr.returncode}: {err[-2000:]}")
+    merged = os.path.join(ctx.work, f"{tag}events.ndjson")
+    events = []
+    with open(merged, "w") as out:
+        for ep, _ in procs:
+            for line in open(ep):
+                out.write(line)
+                events.append(line)
+    ok, info, tres = ctx.validate("TraceFetchSched", "TraceFetchSched.cfg", merged, timeout=3000, heap="8g")
+    if not ok:
+        raise vlib.ToolError(f"trace validation did not consume the whole log: {info}")
+    return events, tres
+
+
+def c13_part(ctx):
+    """C13 on the fetch scheduler: no interleaving of connections, disconnections (also of the link that is not the
+    session's), announcements, fetch commands and results makes the service panic (debug assertions included)."""
+    thorough = ctx.tier == "thorough"
+    ctx.build(ENGINE)
+    rng = random.Random(ctx.seed * 7927 + 1)
+    scripts = scripted() + [random_script(rng, i) for i in range(3000 if thorough else 600)]
+    events, tres = execute(ctx, scripts, tag="c13-")
+    where, cur = {}, None
+    for n, line in enumerate(events, start=1):
+        if line.startswith('{"ev":"init"'):
+            cur = json.loads(line)["run"]
+        where[n] = cur
+    runs = {s["run"]: s for s in scripts}
+    for c in tres.cases:
+        for v in c["viol"]:
+            if v["c"] == "C16_Panic":
+                run_id = where.get(c["at"])
+                ctx.violation(f"C13_Panic:sched:{c['op'][0]}:{'already-fetching' if 'is_fetching' in v['why'] or 'already be fetching' in v['why'] else 'other'}",
+                              f"run {run_id} step {json.dumps(c['op'])}: the service panicked while scheduling fetches: {v['why'][:300]}",
+                              {"engine": ENGINE, "script": runs.get(run_id), "op": c["op"]})
+    ctx.cov["traces_validated_against_impl"] += len(scripts)
+    return {"sched_runs": len(scripts), "sched_steps": sum(1 for e in events if e.startswith('{"ev":"step"'))}
+
+
 def run(ctx):
     thorough = ctx.tier == "thorough"
     ctx.build(ENGINE)
     cfg = "MCFetchSched_t.cfg" if thorough else "MCFetchSched_q.cfg"
-    res = ctx.tlc("MCFetchSched", cfg, workers=8, timeout=3000 if thorough else 600, coverage=True, heap="8g",
+    res = ctx.tlc("MCFetchSched", cfg, workers=1, timeout=3000 if thorough else 600, coverage=True, heap="8g",
                   label="design model, exhaustive: C16_OneLive, C16_TableIsLive, C16_Capacity, C16_SessionConsistent, C16_Attribution (deviations disabled)")
     ctx.tlc_ok(res, "MCFetchSched")
     if res.violated:
         ctx.violation(f"model:{res.violated}", "the design model violates the invariant", {"tlc": res.error_trace[:120]})
         return ctx.finish(rule=RULE)
-    ctx.require_coverage(res, ["Attempt", "Connect", "Disconnect", "StaleDisconnect", "FetchCmd", "AnnFetch", "Wake", "Done"])
-    for name, cfgd, inv in (("late-same-peer", "MCFetchSched_dev1.cfg", "C16_Attribution"), ("late-any-peer", "MCFetchSched_dev2.cfg", "C16_OneLive")):
-        dev = ctx.tlc("MCFetchSched", cfgd, workers=8, timeout=900, coverage=False, count=False, heap="8g",
+    ctx.require_coverage(res, ["Attempt", "Connect", "Disconnect", "StaleDisconnect", "DialFail", "FetchCmd", "AnnFetch", "Wake", "Done"])
+    for name, cfgd, inv in (("late-same-peer", "MCFetchSched_dev1.cfg", "C16_Attribution"), ("late-any-peer", "MCFetchSched_dev2.cfg", "C16_OneLive"),
+                            ("stale-link", "MCFetchSched_dev3.cfg", "SessionHasConnection")):
+        dev = ctx.tlc("MCFetchSched", cfgd, workers=1, timeout=900, coverage=False, count=False, heap="8g",
                       label=f"sanity: deviation {name} must violate {inv}")
         if dev.violated != inv:
             raise vlib.ToolError(f"sanity run: deviation {name} was not rejected by TLC ({dev.violated})")
@@ -111,34 +171,7 @@ def run(ctx):
     nrand = 3000 if thorough else 500
     rng = random.Random(ctx.seed * 104729 + 3)
     scripts += [random_script(rng, i) for i in range(nrand)]
-    nshards = 12
-    procs = []
-    for i in range(nshards):
-        sp = os.path.join(ctx.work, f"scripts{i}.ndjson")
-        with open(sp, "w") as f:
-            for s in scripts[i::nshards]:
-                f.write(json.dumps(s, separators=(",", ":")) + "\n")
-        ep = os.path.join(ctx.work, f"events{i}.ndjson")
-        procs.append((ep, subprocess.Popen([ctx.bin(ENGINE), "--scripts", sp, "--out", ep], cwd=ctx.work,
-                                           stdout=subprocess.PIPE, stderr=subprocess.PIPE, text=True)))
-    for ep, pr in procs:
-        try:
-            _, err = pr.communicate(timeout=3000)
-        except subprocess.TimeoutExpired:
-            pr.kill()
-            raise vlib.ToolError("engine timed out")
-        if pr.returncode != 0:
-            raise vlib.ToolError(f"engine failed rc={pr.returncode}: {err[-2000:]}")
-    merged = os.path.join(ctx.work, "events.ndjson")
-    events = []
-    with open(merged, "w") as out:
-        for ep, _ in procs:
-            for line in open(ep):
-                out.write(line)
-                events.append(line)
-    ok, info, tres = ctx.validate("TraceFetchSched", "TraceFetchSched.cfg", merged, timeout=3000, heap="8g")
-    if not ok:
-        raise vlib.ToolError(f"trace validation did not consume the whole log: {info}")
+    events, tres = execute(ctx, scripts)
     runs = {s["run"]: s for s in scripts}
     where, cur, steps, fetches, applied_late = {}, None, 0, 0, 0
     nontrivial = set()
